@@ -259,10 +259,19 @@ package state
 //@ func State.removeDuplicateUser
 //@   noverify
 //@   ensures existing_maps_untouched: mapsFrame(string, bool, nil)
+// A unified signature (XuperSign) makes every listed address a verified signer. The crypto
+// library checks every kind of signature except the multi-signature against the FIRST listed
+// key only, so with several signers listed the kind of the signature is read first (and must
+// be the multi-signature); the keys handed to the library are the ones matched against the
+// addresses, the message is this transaction's digest. (The two facts about maps the callers
+// use stay assumed, as before.)
 //@ func State.verifyXuperSign
-//@   noverify
-//@   ensures existing_maps_untouched: mapsFrame(string, bool, nil)
-//@   ensures identities_in_a_new_map: result1 == nil || isfresh(result1)
+//@   property C07
+//@   trustcallees
+//@   assumes existing_maps_untouched: mapsFrame(string, bool, nil)
+//@   assumes identities_in_a_new_map: result1 == nil || isfresh(result1)
+//@   at json.Unmarshal assert [C07] the_kind_of_signature_is_read_when_several_signers_are_listed: len(pubkeys) > 1 && (tx != nil && tx.XuperSign != nil ==> $0 == tx.XuperSign.Signature)
+//@   at VerifyXuperSignature assert [C07] the_matched_keys_and_this_digest: $0 == pubkeys && $2 == digestHash && (tx != nil && tx.XuperSign != nil ==> $1 == tx.XuperSign.Signature)
 // A transaction passes the contract-permission check only if EVERY request of it passes the
 // rule of the method it invokes, judged with the signers that were authenticated.
 //@ func State.verifyContractPermission
